@@ -104,7 +104,13 @@ func MkDomain(t [4]byte, suffix uint64) []byte {
 
 // AttEntry builds a well-formed attestation entry with roots derived from uniq.
 func AttEntry(acct int, src, tgt uint64, uniq uint64) Entry {
-	return Entry{Acct: acct, Domain: MkDomain(DomAttester, 0), Slot: tgt * 32, CIdx: uniq % 64,
+	// A validator's duty in a slot belongs to one committee: every other entry takes its committee from the slot, so that
+	// conflicting attestations agree in everything but their roots; the rest differ in the committee index as well.
+	cidx := uniq % 64
+	if uniq%2 == 0 {
+		cidx = tgt % 64
+	}
+	return Entry{Acct: acct, Domain: MkDomain(DomAttester, 0), Slot: tgt * 32, CIdx: cidx,
 		Block: h32("block", uniq), SRoot: h32("sroot", src), TRoot: h32("troot", uniq), Src: src, Tgt: tgt}
 }
 
